@@ -251,8 +251,7 @@ pub fn run(ctx: &Ctx, rec: &mut Rec, out_path: &str) {
             for line in out.lines() {
                 rec.evals += 1;
                 rec.distinct.insert(h64(&line));
-                let kind = line.split(' ').take(2).collect::<Vec<_>>().join(" ");
-                let kind = if kind.starts_with("prog") { "group program step".to_string() } else { kind };
+                let kind = line_kind(line);
                 rec.count(&format!("lines: {kind}"), 1);
                 if line.contains("PANIC(") {
                     rec.count("lines recording a panic", 1);
@@ -275,4 +274,27 @@ pub fn run(ctx: &Ctx, rec: &mut Rec, out_path: &str) {
         rec.sample(serde_json::json!({"transcript_line": l}));
     }
     std::fs::write(format!("{out_path}.transcript"), all).expect("write transcript");
+}
+
+/// coarse classification of a transcript line (for the per-kind counters in the evidence)
+fn line_kind(line: &str) -> String {
+    if line.starts_with("prog") {
+        return "group program step".to_string();
+    }
+    let head = line.split(" -> ").next().unwrap_or("");
+    let mut toks: Vec<&str> = Vec::new();
+    for t in head.split(' ') {
+        if t.contains('=') {
+            break;
+        }
+        let t = t.split('[').next().unwrap_or(t);
+        let hexish = t.len() >= 8 && t.chars().all(|c| c.is_ascii_hexdigit());
+        let numeric = !t.is_empty() && t.chars().all(|c| c.is_ascii_digit());
+        let oxhex = t.starts_with("0x");
+        if hexish || numeric || oxhex || t.is_empty() {
+            continue;
+        }
+        toks.push(t);
+    }
+    toks.join(" ")
 }
